@@ -56,7 +56,8 @@ Lemma publish_cases f s c n sid u content noecho :
    msgs (h_st h) = msgs s ++ [mkMsg (c_lastid c + 1) u content 0] /\
    ~ In (c_lastid c + 1) (seqs s) /\
    h_out h = (sid, Ctrl 202 [(P_seq, c_lastid c + 1)]) ::
-             fanout_data (h_ca h) (if noecho then sid else 0%N) (Data (c_lastid c + 1) u content)).
+             fanout_data (h_ca h) (if noecho then sid else 0%N) (Data (c_lastid c + 1) u content)
+             ++ push_out (h_ca h) (c_lastid c + 1) u).
 Proof.
   cbn zeta. unfold publish.
   destruct (negb (is_writer (pud_mode (get_pud c u)))).
